@@ -1,4 +1,5 @@
 pub mod cluster;
 pub mod kv;
+pub mod mtu;
 pub mod pair;
 pub mod wire;
